@@ -472,6 +472,160 @@ end Interp
 namespace Interp
 open Typing
 
+theorem pairN_sound : ∀ (n : Nat) (st : List Val) (r : Val) (st' : List Val), StackWF st →
+    Spec.pairN n st = some (r, st') →
+    WF r ∧ StackWF st' ∧ pairNTy n (st.map typeOf) = some (typeOf r, st'.map typeOf)
+  | 0, st, r, st', _, h => by simp [Spec.pairN] at h
+  | 1, st, r, st', _, h => by simp [Spec.pairN] at h
+  | 2, st, r, st', hw, h => by
+    rcases st with _ | ⟨a, _ | ⟨b, st⟩⟩ <;> simp [Spec.pairN] at h
+    obtain ⟨rfl, rfl⟩ := h
+    rw [stackWF_cons, stackWF_cons] at hw
+    simp [pairNTy, typeOf, hw.1, hw.2.1, hw.2.2]
+  | n + 3, st, r, st', hw, h => by
+    rcases st with _ | ⟨a, st⟩
+    · simp [Spec.pairN] at h
+    rw [stackWF_cons] at hw
+    simp only [Spec.pairN] at h
+    cases hq : Spec.pairN (n + 2) st with
+    | none => simp [hq] at h
+    | some p =>
+      obtain ⟨r', st''⟩ := p
+      simp only [hq, Option.map_some, Option.some.injEq, Prod.mk.injEq] at h
+      obtain ⟨rfl, rfl⟩ := h
+      obtain ⟨h1, h2, h3⟩ := pairN_sound (n + 2) st r' st'' hw.2 hq
+      simp [pairNTy, h3, typeOf, hw.1, h1, h2]
+
+theorem unpairN_sound : ∀ (n : Nat) (v : Val) (xs : List Val), WF v → Spec.unpairN n v = some xs →
+    StackWF xs ∧ unpairNTy n (typeOf v) = some (xs.map typeOf)
+  | 0, v, xs, _, h => by cases v <;> simp [Spec.unpairN] at h
+  | 1, v, xs, _, h => by cases v <;> simp [Spec.unpairN] at h
+  | 2, v, xs, hw, h => by
+    cases v <;> first | (simp [Spec.unpairN] at h; done) | skip
+    rename_i a b
+    simp only [Spec.unpairN, Option.some.injEq] at h
+    subst h
+    rw [wf_pair] at hw
+    simp [unpairNTy, typeOf, stackWF_cons, hw.1, hw.2, stackWF_nil]
+  | n + 3, v, xs, hw, h => by
+    cases v <;> first | (simp [Spec.unpairN] at h; done) | skip
+    rename_i a b
+    rw [wf_pair] at hw
+    simp only [Spec.unpairN] at h
+    cases hq : Spec.unpairN (n + 2) b with
+    | none => simp [hq] at h
+    | some xs' =>
+      simp only [hq, Option.map_some, Option.some.injEq] at h
+      subst h
+      obtain ⟨h1, h2⟩ := unpairN_sound (n + 2) b xs' hw.2 hq
+      simp [unpairNTy, typeOf, h2, stackWF_cons, hw.1, h1]
+
+theorem getN_sound : ∀ (n : Nat) (v r : Val), WF v → Spec.getN n v = some r →
+    WF r ∧ getNTy n (typeOf v) = some (typeOf r)
+  | 0, v, r, hw, h => by
+    simp only [Spec.getN, Option.some.injEq] at h
+    subst h
+    exact ⟨hw, by simp [getNTy]⟩
+  | 1, v, r, hw, h => by
+    cases v <;> first | (simp [Spec.getN] at h; done) | skip
+    simp only [Spec.getN, Option.some.injEq] at h
+    subst h
+    rw [wf_pair] at hw
+    exact ⟨hw.1, by simp [getNTy, typeOf]⟩
+  | n + 2, v, r, hw, h => by
+    cases v <;> first | (simp [Spec.getN] at h; done) | skip
+    rename_i a b
+    rw [wf_pair] at hw
+    simp only [Spec.getN] at h
+    obtain ⟨h1, h2⟩ := getN_sound n b r hw.2 h
+    exact ⟨h1, by simp [getNTy, typeOf, h2]⟩
+
+theorem updateN_sound : ∀ (n : Nat) (e v r : Val), WF e → WF v → Spec.updateN n e v = some r →
+    WF r ∧ updateNTy n (typeOf e) (typeOf v) = some (typeOf r)
+  | 0, e, v, r, hwe, _, h => by
+    simp only [Spec.updateN, Option.some.injEq] at h
+    subst h
+    exact ⟨hwe, by simp [updateNTy]⟩
+  | 1, e, v, r, hwe, hw, h => by
+    cases v <;> first | (simp [Spec.updateN] at h; done) | skip
+    simp only [Spec.updateN, Option.some.injEq] at h
+    subst h
+    rw [wf_pair] at hw
+    exact ⟨(wf_pair _ _).mpr ⟨hwe, hw.2⟩, by simp [updateNTy, typeOf]⟩
+  | n + 2, e, v, r, hwe, hw, h => by
+    cases v <;> first | (simp [Spec.updateN] at h; done) | skip
+    rename_i a b
+    rw [wf_pair] at hw
+    simp only [Spec.updateN] at h
+    cases hq : Spec.updateN n e b with
+    | none => simp [hq] at h
+    | some r' =>
+      simp only [hq, Option.map_some, Option.some.injEq] at h
+      subst h
+      obtain ⟨h1, h2⟩ := updateN_sound n e b r' hwe hw.2 hq
+      exact ⟨(wf_pair _ _).mpr ⟨hw.1, h1⟩, by simp [updateNTy, typeOf, h2]⟩
+
+section
+variable (env : Env) (st st' : List Val) (hw : StackWF st)
+include hw
+
+theorem sound_PAIRN (n : Nat) (hev : Spec.step env (.PAIRN n) st = .ok st') :
+    StackWF st' ∧ Typing.step (.PAIRN n) (st.map typeOf) = some (.ok (st'.map typeOf)) := by
+  simp only [Spec.step] at hev
+  cases hq : Spec.pairN n st with
+  | none => simp [hq] at hev
+  | some p =>
+    obtain ⟨r, st''⟩ := p
+    simp only [hq, Res.ok.injEq] at hev
+    subst hev
+    obtain ⟨h1, h2, h3⟩ := pairN_sound n st r st'' hw hq
+    simp [Typing.step, h3, stackWF_cons, h1, h2]
+
+theorem sound_UNPAIRN (n : Nat) (hev : Spec.step env (.UNPAIRN n) st = .ok st') :
+    StackWF st' ∧ Typing.step (.UNPAIRN n) (st.map typeOf) = some (.ok (st'.map typeOf)) := by
+  st_top
+  simp only [Spec.step] at hev
+  cases hq : Spec.unpairN n a with
+  | none => simp [hq] at hev
+  | some xs =>
+    simp only [hq, Res.ok.injEq] at hev
+    subst hev
+    obtain ⟨h1, h2⟩ := unpairN_sound n a xs hwa hq
+    simp [Typing.step, h2, stackWF_append, h1, hw]
+
+theorem sound_GETN (n : Nat) (hev : Spec.step env (.GETN n) st = .ok st') :
+    StackWF st' ∧ Typing.step (.GETN n) (st.map typeOf) = some (.ok (st'.map typeOf)) := by
+  st_top
+  simp only [Spec.step] at hev
+  cases hq : Spec.getN n a with
+  | none => simp [hq] at hev
+  | some r =>
+    simp only [hq, Res.ok.injEq] at hev
+    subst hev
+    obtain ⟨h1, h2⟩ := getN_sound n a r hwa hq
+    simp [Typing.step, h2, stackWF_cons, h1, hw]
+
+theorem sound_UPDATEN (n : Nat) (hev : Spec.step env (.UPDATEN n) st = .ok st') :
+    StackWF st' ∧ Typing.step (.UPDATEN n) (st.map typeOf) = some (.ok (st'.map typeOf)) := by
+  rcases st with _ | ⟨e, _ | ⟨v, st⟩⟩
+  · simp [Spec.step] at hev
+  · simp [Spec.step] at hev
+  rw [stackWF_cons, stackWF_cons] at hw
+  simp only [Spec.step] at hev
+  cases hq : Spec.updateN n e v with
+  | none => simp [hq] at hev
+  | some r =>
+    simp only [hq, Res.ok.injEq] at hev
+    subst hev
+    obtain ⟨h1, h2⟩ := updateN_sound n e v r hw.1 hw.2.1 hq
+    simp [Typing.step, h2, stackWF_cons, h1, hw.2.2]
+
+end
+end Interp
+
+namespace Interp
+open Typing
+
 /-- PUSH and LAMBDA need the static check of their literal; every other rule without sub-programs is sound as is -/
 def isLiteral : Instr → Bool
   | .PUSH _ _ | .LAMBDA _ _ _ => true
@@ -534,5 +688,9 @@ theorem step_sound (env : Env) (i : Instr) (st st' : List Val) (hw : StackWF st)
   case LEVEL => exact sound_LEVEL env st st' hw hev
   case CHAIN_ID => exact sound_CHAIN_ID env st st' hw hev
   case SELF_ADDRESS => exact sound_SELF_ADDRESS env st st' hw hev
+  case PAIRN n => exact sound_PAIRN env st st' hw n hev
+  case UNPAIRN n => exact sound_UNPAIRN env st st' hw n hev
+  case GETN n => exact sound_GETN env st st' hw n hev
+  case UPDATEN n => exact sound_UPDATEN env st st' hw n hev
 
 end Interp
